@@ -45,6 +45,11 @@ Qed.
 Lemma inv_m_adds ps : forall (m : mod_), inv m -> inv (m_adds ps m).
 Proof. apply fold_left_pres. intros a x. apply inv_m_add. Qed.
 
+Lemma m_reorder_inv its : forall (m : mod_), inv m -> inv (m_reorder its m).
+Proof.
+  apply fold_left_pres. intros a kl Ha. apply inv_setitem. apply (inv_delitem (fst kl) a Ha).
+Qed.
+
 Lemma m_step_inv (m : mod_) x : inv m -> inv (fst (m_step m x)).
 Proof.
   intros H. destruct x; cbn [m_step fst]; try exact H.
@@ -60,6 +65,11 @@ Proof.
   - apply inv_m_adds, H.
   - apply inv_m_adds, H.
   - apply inv_empty.
+  - destruct fs; exact H.
+  - match goal with |- context [insert ?i ?k ?w m] =>
+      pose proof (inv_insert i k w m H) as HI; destruct (insert i k w m); exact HI end.
+  - apply m_reorder_inv, H.
+  - apply m_reorder_inv, H.
 Qed.
 Lemma m_run_inv ops : forall (m : mod_), inv m -> inv (m_run m ops).
 Proof. induction ops as [|x ops IH]; cbn; intros m H; [exact H|]. apply IH, m_step_inv, H. Qed.
@@ -125,6 +135,7 @@ Proof.
   - apply getlist_m_adds.
   - rewrite getlist_m_adds. f_equal. rewrite allitems_key by (apply inv_m_adds, inv_empty).
     rewrite getlist_m_adds. reflexivity.
+  - destruct fs; reflexivity.
 Qed.
 
 Definition no_popitem (ops : list mop) : bool := forallb (fun x => negb (is_popitem x)) ops.
